@@ -22,6 +22,9 @@ def scaled(b, selector, variant):
             "connect_kwargs": {"ping_rate": 0, "close_timeout": None},
             "transport": {"tls": bool(b['tls']), "rec": b['rec'], "short": b['short'], "bursts": list(b['bursts']),
                           "dts": [1 + (i % 2) for i in range(len(b['bursts']))]}}
+    if variant == 5:
+        # a second live connection of the process reads (into ITS receive buffer) while a handler of this one runs
+        sc['react'] = {'%s#%d' % (n_, k): [["other_recv", 8]] for n_ in ('text', 'ping', 'poll') for k in range(4)}
     if variant == 4:
         # the application has called close() at Ready: what arrives afterwards (Pings included) is still drained and delivered
         sc['react'] = {"ready#0": [["close"]]}
@@ -91,13 +94,15 @@ def run(tier, seed):
         if not b['tls'] and (b['rec'] != 4 or b['short'] != 8):
             continue            # record size / short reads are irrelevant on plain TCP
         for si, sel in enumerate(('poll', 'select', 'kqueue')):
-            if q and si != (len(jobs) % 3):
+            if q and si != (len(seen_b) % 3):
                 continue
             jobs.append(scaled(b, sel, si))
         if len(seen_b) % 4 == 0:
             jobs.append(scaled(b, 'poll', 3))
         if len(seen_b) % 4 == 2:
             jobs.append(scaled(b, 'poll', 4))
+        if len(seen_b) % 4 == 1:
+            jobs.append(scaled(b, 'poll', 5))
     jobs += real_size(tier, seed)
     logs = pipeline.execute(jobs)
     r.evaluations = len(jobs)
